@@ -962,7 +962,10 @@ def replay(ctx, rec):
             ctx.violation("construct", case, {"exception": repr(exc)})
             return
         pp, psh = pspec[1], spec_shading(pspec)
-        strong = {I: Y.strongest_naive(pp, psh, I, len(pp) + 1) for I in R.occurrences(qspec[1], pp)}
+        if len(pp) <= 6:
+            strong = {I: Y.strongest_naive(pp, psh, I, len(pp) + 1) for I in R.occurrences(qspec[1], pp)}
+        else:
+            strong = {I: Y.strongest_by_insertion(pp, psh, I) for I in R.occurrences(qspec[1], pp)}
         if not _SIGMAS:
             _SIGMAS.extend(R.perms_upto(5))
         for s in (qspec, pspec):
